@@ -171,6 +171,53 @@ def in_d12(sub_name, case):
     return M.column_collision(case)
 
 
+def check_large(case):
+    """Thousands of rows (data expanded from a drawn numpy seed): cells and overall against boolean masks."""
+    import fairlearn.metrics as fm
+    from fairlearn.metrics import MetricFrame
+
+    rs = np.random.RandomState(case["seed"])
+    n = case["n"]
+    feats = [rs.randint(0, k, size=n) for k in case["levels"]]
+    # one rare level combination: the last rows only
+    for f in feats:
+        f[-case["rare"]:] = f.max() + 1
+    yt = rs.randint(0, 2, size=n)
+    yp = rs.randint(0, 2, size=n)
+    w = rs.randint(1, 5, size=n).astype(float) * case["wscale"]
+    names = ["f%d" % j for j in range(len(feats))]
+    sf = pd.DataFrame({nm: f for nm, f in zip(names, feats)}) if case["frame"] else np.column_stack(feats)
+    metrics = {"count": fm.count, "sel": fm.selection_rate, "wacc": M.m_wmean}
+    mf = MetricFrame(metrics=metrics, y_true=yt, y_pred=yp, sensitive_features=sf,
+                     sample_params={"sel": {"sample_weight": w}, "wacc": {"sample_weight": w}})
+    bg = mf.by_group
+    seen = 0
+    for key, row in zip(bg.index.tolist(), bg.itertuples(index=False)):
+        key = key if isinstance(key, tuple) else (key,)
+        mask = np.ones(n, dtype=bool)
+        for f, v in zip(feats, key):
+            mask &= f == v
+        if mask.sum() == 0:
+            M.need(all(pd.isna(x) for x in row), f"empty cell {key} is {tuple(row)}, expected NaN")
+            continue
+        seen += int(mask.sum())
+        exp = (int(mask.sum()), float(w[mask & (yp == 1)].sum() / w[mask].sum()), float((w[mask] * (yt[mask] == yp[mask])).sum() / w[mask].sum()))
+        for got, e, nm in zip(row, exp, ("count", "sel", "wacc")):
+            M.need(np.ndim(got) == 0 and M.close(got, e, 1e-9, max(abs(e), 1e-300)), f"by_group[{key}][{nm}] = {got!r}, from the {int(mask.sum())} rows of the cell: {e!r}")
+    M.need(seen == n, f"cells cover {seen} of {n} rows")
+    ov = mf.overall
+    M.need(float(ov["count"]) == n and M.close(ov["sel"], float(w[yp == 1].sum() / w.sum())), f"overall {ov.to_dict()}")
+    return ["nt", f"n={n}"]
+
+
+@st.composite
+def _large_strategy(draw):
+    k = draw(st.integers(1, 2))
+    return {"n": draw(st.sampled_from([1000, 2500, 5000, 12000])), "seed": draw(st.integers(0, 2**31 - 1)),
+            "levels": [draw(st.integers(2, 4)) for _ in range(k)], "rare": draw(st.sampled_from([1, 2, 7])),
+            "wscale": draw(st.sampled_from([1.0, 0.25, 1e-6])), "frame": draw(st.booleans())}
+
+
 REGIONS = {}  # D12 was repaired in /repo: its former region is part of the ordinary search (class 'name_collision')
 
 _D12_PROBE = {
@@ -192,4 +239,5 @@ SUBS = [
     Sub("cells", check, strategy=_strategy, quick=1500, thorough=40000, shards=16,
         floors={"nt": 0.3, "groups>=2": 0.361, "single_member_cell": 0.2, "empty_cell": 0.099, "control": 0.15,
                 "sample_params": 0.283, "dict>=2": 0.15, "n1": 0.003}),
+    Sub("cells_large", check_large, strategy=_large_strategy, quick=32, thorough=400, shards=16, shrink_quick=False),
 ]
